@@ -25,7 +25,7 @@ import (
 	"verif/vk"
 )
 
-const c13Rule = "(a) rapid: free group templates (depth<=3, 1-6 members, optional members absent, 0-4 entries) placed first/middle/last among body tags, written with SetGroup+build, parsed without dictionary; (b) enumeration of (dictionary, message, group path) over all shipped dictionaries, 3 population variants x {API-written, spec-order wire} x {with defining dictionary, without}; non-trivial = >=2 entries or a nested group, and >=1 body field after the group; distinct = distinct message bytes"
+const c13Rule = "(a) rapid: free group templates (depth<=3, 1-6 members, optional members absent, 0-4 entries) placed first/middle/last among body tags, written with SetGroup+build (a quarter of them set a first time with another population, optionally serialised, then replaced), parsed without dictionary; (b) enumeration of (dictionary, message, group path) over all shipped dictionaries, 3 population variants x {API-written, spec-order wire} x {with defining dictionary, without}; non-trivial = >=2 entries or a nested group, and >=1 body field after the group; distinct = distinct message bytes"
 
 func c13() *stats.Collector {
 	c := stats.Get("C13")
@@ -115,6 +115,14 @@ func c13FreeProperty(t *rapid.T) {
 	}
 	for k, v := range after {
 		m.Body.SetString(quickfix.Tag(k), v)
+	}
+	if rapid.IntRange(0, 3).Draw(t, "written-twice") == 0 {
+		// the group is set once with another population (and possibly serialised) before the final one replaces it
+		m.Body.SetGroup(genFreeGroup(t, base, tm).qf())
+		if rapid.Bool().Draw(t, "built-in-between") {
+			_ = m.String()
+		}
+		c.Class("free:group-replaced-before-writing")
 	}
 	m.Body.SetGroup(g.qf())
 	raw := []byte(m.String())
@@ -277,6 +285,10 @@ func checkDictGroup(t fataler, pr c13pair, variant int, seed int64) {
 	for _, it := range items {
 		if it.IsGroup {
 			api.Body.SetGroup(qfGroupFromItem(it))
+			if len(wire)%4 == 0 {
+				// set again (a caller amending the message before sending): the last call wins, once
+				api.Body.SetGroup(qfGroupFromItem(it))
+			}
 		} else {
 			api.Body.SetString(quickfix.Tag(it.Tag), it.Value)
 		}
